@@ -162,3 +162,41 @@ def chirality_height(pos):
             if nn > 1e-9:
                 best = max(best, abs(np.dot(pos[d] - pos[a], nrm / nn)))
     return best
+
+
+def kabsch_weighted(P, Y, w):
+    """proper rotation + translation minimising sum_i w_i |R p_i + t - y_i|^2 ; returns (weighted mean square, deviations)"""
+    P = np.asarray(P, float)
+    Y = np.asarray(Y, float)
+    w = np.asarray(w, float)
+    w = w / w.sum()
+    pc = (w[:, None] * P).sum(axis=0)
+    yc = (w[:, None] * Y).sum(axis=0)
+    A = ((P - pc) * w[:, None]).T @ (Y - yc)
+    U, S, Vt = np.linalg.svd(A)
+    d = np.sign(np.linalg.det(Vt.T @ U.T)) or 1.0
+    R = Vt.T @ np.diag([1.0, 1.0, d]) @ U.T
+    t = yc - R @ pc
+    dev = np.sqrt(((P @ R.T + t - Y) ** 2).sum(-1))
+    return float((w * dev ** 2).sum()), dev
+
+
+def minimax_lower_bound(P, Y, iters=40):
+    """certified lower bound on  min over proper rigid motions of  max_i |R p_i + t - y_i| :
+    for ANY weights w (sum 1) the weighted least-squares optimum is <= the weighted mean square of the minimax-optimal
+    motion <= (minimax deviation)^2.  Lawson's iteration (w_i <- w_i * dev_i) drives the weights towards the worst atoms;
+    the largest value seen is returned."""
+    n = len(P)
+    w = np.full(n, 1.0 / n)
+    best = 0.0
+    for _ in range(iters):
+        ms, dev = kabsch_weighted(P, Y, w)
+        best = max(best, ms)
+        if dev.max() < 1e-14:
+            break
+        w = w * (dev + 1e-300)
+        s = w.sum()
+        if s <= 0:
+            break
+        w = w / s
+    return float(np.sqrt(best))
